@@ -115,6 +115,9 @@ def run_case(cfg):
                     viol = ("idle-without-work", "tuner %d was told IDLE while no trial is running anywhere (trials %d, retry queue %d)" % (w, n_trials, n_queued)); break
             elif t.status == "STOPPED":
                 stopped.add(w)
+                if n_queued > 0:
+                    # create_trial serves the retry queue before anything else: STOPPED with a retry pending leaves that trial unrun for good
+                    viol = ("early-stop-retry-pending", "tuner %d was told STOPPED while %d trial(s) were waiting in the retry queue (trials %d, ongoing %d)" % (w, n_queued, n_trials, n_ongoing)); break
                 N = cfg.get("max_trials")
                 reason = None
                 from checks import c09
